@@ -63,7 +63,8 @@ CLAIMED = {
         text="Lean 4: with_block_restores — for every program body (any operations of Core.Op, any nesting of with-blocks, any raise point) the block "
              "returns exactly the system it was entered with (state equality incl. solver, objective, direction, context stack) and __exit__ does "
              "not raise; op_well_recorded per operation. Tied to the code by the Core correspondence and by full snapshots at __enter__ vs after "
-             "__exit__ on generated nested programs over all context-aware public ops.",
+             "__exit__ on generated nested programs over all context-aware public ops. "
+             "Analysis helpers inside contexts (add_pfba, add_moma, add_room, add_loopless, fix_objective_as_constraint; nested, repeated, raising): inside the block the solver problem is the Lean builder's, after the block it is AuxM.Net.fba of the content (captured-problem comparison).",
         note=CORE_NOTE, technique="Lean 4 proof (LIFO undo by mutual induction over nested programs) + snapshot comparison on the real model",
         design="DESIGN.md section 5, C03"),
     "C07": dict(
@@ -84,7 +85,8 @@ CLAIMED = {
              "parameter: on every generated instance cobrapy's status, objective value, fluxes (steady state, bounds), shadow prices (dual sign "
              "conditions), reduced costs (= c - S^T y), accessors, error value / exception class and Solution snapshot behaviour are compared with the "
              "certified truth, for glpk and glpk_exact. "
-             "Whole problem: any optimum of AuxM.Net.fba is, on net fluxes, an optimum of the objective over all steady-state in-bounds flux vectors (fba_problem_optimum); the reported reduced cost (forward variable) is c - S^T y under any shadow prices y, the reverse variable's its negative (reduced_cost_is_c_minus_STy). Whole-problem layer (lean/CobraModel/Model/AuxProb.lean, Lemmas/AuxProb.lean): the complete solver problem cobrapy builds is a Lean function of the model content and the arguments, compared entry by entry (variables, boxes, kinds, row names, bounds, coefficients, objective, direction; exact rationals) with the raw GLPK problem read at the moment of every solve (harness/auxcorr.py); a mismatch is followed by oracle cases on the same model.",
+             "Whole problem: any optimum of AuxM.Net.fba is, on net fluxes, an optimum of the objective over all steady-state in-bounds flux vectors (fba_problem_optimum); the reported reduced cost (forward variable) is c - S^T y under any shadow prices y, the reverse variable's its negative (reduced_cost_is_c_minus_STy). Whole-problem layer (lean/CobraModel/Model/AuxProb.lean, Lemmas/AuxProb.lean): the complete solver problem cobrapy builds is a Lean function of the model content and the arguments, compared entry by entry (variables, boxes, kinds, row names, bounds, coefficients, objective, direction; exact rationals) with the raw GLPK problem read at the moment of every solve (harness/auxcorr.py); a mismatch is followed by oracle cases on the same model. "
+             "Certified answers: the dense form of the Lean-built problem (Prob.toDense) is handed to the untrusted exact simplex, its certificate is accepted only through Prob.certOpt / certInfeas (certified_answer_is_optimum, certified_infeasible, certified_fba_optimum), and GLPK's status and optimum for every captured continuous problem must lie between the certified optimum of that problem and that of the problem with every bound widened by 1e-6.",
         note=LP_NOTE, technique="Lean 4 proof (verified certificate checker, weak duality / Farkas) + certified differential testing of GLPK answers",
         design="DESIGN.md section 5, C04"),
     "C05": dict(
@@ -243,7 +245,8 @@ CLAIMED = {
              "roundUp lemmas (>= n, multiple of p, < n + p, exact on multiples) and distinct chain seeds for OptGP. On the real code the pool worker "
              "functions are wrapped before the pool forks (seeded per-task delays, (pid, task) logs): FVA, blocked / essential searches, single and "
              "double deletions with processes 1..8, permuted item lists and delay seeds are compared with each other and with asking for each item alone; "
-             "parallel OptGP: row count against the Lean roundUp (line driver), every sample valid, reproducible for fixed seed and process count.",
+             "parallel OptGP: row count against the Lean roundUp (line driver), every sample valid, reproducible for fixed seed and process count. "
+             "Problem level: the problem each worker process hands to the solver for each item is recorded inside the workers under every explored schedule and compared entry by entry with the Lean builder of that item's problem (AuxM.Net.fvaStep / reactionDeletion / geneDeletion, functions of content and item alone); two optima of one problem have the same value (item_value_is_schedule_free, fva_item_value_is_the_extreme).",
         note="Partial by nature: real OS scheduling, pickling of the model into workers and GLPK warm-start state are explored (seeded delays, process "
              "counts, permutations; schedules taken are logged), not proved. Trusted: Lean kernel, standard axioms; the abstraction of the worker as a "
              "sequential state machine; that the real tasks satisfy the premise is the subject of C05 / C13.",
@@ -260,7 +263,8 @@ CLAIMED = {
              "within the reaction bounds and at steady state). The Lean step is compared with the real step function on dyadic data (binary64 exact); "
              "every sample returned by ACHR / OptGP (sample() and sampler objects, reaction and variable space, thinning, nproj, 1..3 processes) on "
              "generated feasible models (homogeneous, forced / fixed fluxes, extra linear constraints) is checked in exact rational arithmetic; row count, "
-             "column order, same seed -> same samples, validate() against the independent check, model untouched.",
+             "column order, same seed -> same samples, validate() against the independent check, model untouched. "
+             "From the sampler's matrices back to the model: AuxM.Prob.sampler is the matrix problem HRSampler.__build_problem derives (compared with sampler.problem of the real ACHR / OptGP samplers), and a point satisfying it gives net fluxes at steady state, in bounds and inside every user constraint (sample_point_is_feasible_flux, sampler_matrices_sound).",
         note="Partial by nature: binary64 arithmetic, numpy's generator, the SVD null space and the re-projection are outside the model; whether the floating "
              "walk stays inside is monitored on every returned sample, not proved. Feasibility judged at 1e-6 (10x the documented tolerance). Trusted: Lean "
              "kernel, standard axioms.",
